@@ -31,6 +31,8 @@ RULES = {
     'ARM-CANCEL': 'a size-triggered flush cancels the pending timeout handle of that key (guard on configuration only)',
     'APPEND-THEN-TEST': 'the size test of a partition follows the append on every path (a batch cannot outgrow n)',
     'FLUSH-RESETS': 'a batching node removes from its element buffer what it emits, on the same path',
+    'TICK-PERIOD': 'each cycle of a tick loop (timed_window, timed_window_unique) sleeps exactly once, unconditionally, for '
+                   'self.interval, after having awaited its emission; self.interval is convert_interval(<the constructor argument>)',
     'META-MEMBERS': 'an emission built from an element buffer carries the content of that buffer\'s metadata twin',
     'ARM-ON-FIRST': 'the timeout is armed exactly when the first element of a batch arrives, with the flush of that key as target',
 }
@@ -1286,3 +1288,53 @@ def _conjuncts(text, outcome):
             out.extend(_conjuncts(c2, o2))
         return out
     return [(text, outcome)]
+
+
+def check_tick_period(ctx, R, classes):
+    """structural part of the deadline clause: the period of the tick loop is the configured interval.
+    On the let-normal form of every cycle of cb: one awaited sleep(self.interval), not conditional on anything, after the
+    emission was awaited; __init__ stores convert_interval(interval) in self.interval and nothing else writes it."""
+    from ..symexpr import SymEval, nf
+    M = ctx.model
+    for cls in classes:
+        fn = cls.find('cb')
+        if fn is None or not fn.is_coro:
+            continue
+        con = ctx.construct(fn)
+        paths = [r for r in SymEval(M, cls, name_calls=True).run(fn) if not r.raised]
+        bad, n = None, 0
+        for r in paths:
+            if not r.emits:
+                continue            # the loop was not entered on this symbolic path
+            n += 1
+            sleeps = [(k, c) for k, (c, s_, l) in enumerate(r.calls) if isinstance(c, ast.Call) and nf(c.func).split('.')[-1] == 'sleep']
+            if len(sleeps) != 1:
+                bad = bad or 'a cycle sleeps %d times' % len(sleeps)
+                continue
+            k, c = sleeps[0]
+            if [nf(a) for a in c.args] != ['self.interval'] or c.keywords:
+                bad = bad or 'a cycle sleeps for %s, not for self.interval' % ', '.join(nf(a) for a in c.args)
+            if k not in r.awaited_calls:
+                bad = bad or 'the sleep is not awaited'
+            if any(not c_.startswith('<') and 'True' != c_ for c_, o in r.conds):
+                bad = bad or 'the cycle (and its sleep) depends on a test: %s' % [c_ for c_, o in r.conds][:1]
+            pos_sleep = next(j for j, key in enumerate(r.order) if key == ('call', k))
+            pos_emit = next(j for j, key in enumerate(r.order) if key[0] == 'emit')
+            if pos_sleep < pos_emit or 0 not in r.awaited:
+                bad = bad or 'the cycle sleeps before its emission was awaited'
+        R.ob('TICK-PERIOD', con, 'sleep-interval', bad is None and n > 0, bad or 'no cycle found', ctx.where(fn, fn.node.lineno), None, n)
+        # the field holds the converted constructor argument and is written nowhere else
+        init = cls.find('__init__')
+        writers = []
+        for c2 in cls.mro:
+            for mname, f2 in c2.methods.items():
+                for x in own_nodes(f2.node):
+                    if isinstance(x, (ast.Assign, ast.AugAssign)):
+                        for t in (x.targets if isinstance(x, ast.Assign) else [x.target]):
+                            if self_field(t) == 'interval' and isinstance(t, ast.Attribute):
+                                writers.append((f2, x))
+        ok = len(writers) == 1 and writers[0][0] is init and isinstance(writers[0][1], ast.Assign) \
+            and nf(writers[0][1].value) == 'convert_interval(interval)' and 'interval' in init.params()
+        R.ob('TICK-PERIOD', ctx.construct(init), 'interval-field', ok,
+             'self.interval is not exactly convert_interval(<constructor argument interval>), written once in __init__',
+             ctx.where(init, init.node.lineno))
